@@ -146,6 +146,8 @@ def run(ctx):
     t = unparse(r[-1].value).replace(' ', '') if r else ''
     ctx.check(t.startswith('np.unique(np.concatenate(list(%s.values())))' % fl.params[0]), 'C07.A3', fl, r[-1] if r else '_flatten_per_cluster', 'flatten = sorted distinct union of the groups',
               '_flatten_per_cluster is not np.unique(np.concatenate(groups))')
+    from obligations.shape_tables import check_index_of
+    check_index_of(ctx, 'C07.A3')
     if nrep == 0:
         ctx.holds('C07.A0', spc, 'no index-space conflict in the grouping utilities and the model queries (8 analyses)', 'grouping utilities')
 
